@@ -7,6 +7,7 @@ import (
 	"net"
 	"os"
 	"path/filepath"
+	"reflect"
 	"sort"
 	"strings"
 	"testing"
@@ -17,7 +18,6 @@ import (
 	"verifkit/ev"
 	"verifkit/vos"
 	"verifkit/vsched"
-	"verifkit/vsync"
 	"verifkit/vtime"
 )
 
@@ -147,7 +147,7 @@ func c16Body(c c16Case, env *c16Env, obs *c16Obs) func() {
 		// fresh globals, as after a daemon start
 		processor, headerInfo = nil, nil
 		previousSnapshotID, previousSnapshotTime = 0, time.Time{}
-		mu = vsync.Mutex{}
+		reflect.ValueOf(&mu).Elem().Set(reflect.Zero(reflect.TypeOf(mu))) // sync.Mutex, or vsync.Mutex in the C16 build
 		frameLogIntervalFirstMin, frameLogInterval = frameLogIntervalFirstMin0, frameLogInterval0
 		vos.Reset()
 		vtime.Reset()
